@@ -288,6 +288,26 @@ theorem tak_genOK (basis : Array W) (ev : Pos → Int) (sym : Pos → List H) (p
       dsimp only at ht
       omega
 
+/-- the zero move `tak.Move{}` is accepted nowhere (its type code is none of the eight `MovePreallocated` dispatches on) -/
+theorem zero_not_accepted (basis : Array W) (p c : Pos) (h3 : 3 ≤ p.cfg.size) (h8 : p.cfg.size ≤ 8) :
+    p.apply basis ⟨0, 0, 0, 0#32⟩ ≠ .ok c := by
+  intro hc
+  have hs := Tak.Proofs.apply_legalShape' basis p _ c h3 h8 (by decide) hc
+  rcases Tak.PTN.legalShape_kind hs with ⟨h1, _⟩ | ⟨_, h2, _⟩
+  · revert h1; decide
+  · revert h2; decide
+
+/-- a move of known origin that is accepted somewhere is not the pass and is in normal form (no junk `Slides` word) -/
+theorem fromGen_accepted_shape (basis : Array W) (ev : Pos → Int) (sym : Pos → List H) (p c : Pos)
+    (h3 : 3 ≤ p.cfg.size) (h8 : p.cfg.size ≤ 8) (m : Move) (hq : FromGen (takGame basis ev sym) SizeOK m)
+    (hc : p.apply basis m = .ok c) : m.type ≠ Facts.mtPass ∧ Notation.normalize m = m := by
+  rcases hq with hz | ⟨q, hq, hm⟩
+  · have hz' : m = ⟨0, 0, 0, 0#32⟩ := hz
+    subst hz'
+    exact absurd hc (zero_not_accepted basis p c h3 h8)
+  · have hs := Tak.Proofs.allMoves_legalShape' q hq.1 hq.2 m hm
+    exact ⟨Tak.Proofs.legalShape_not_pass hs, Tak.Proofs.legalShape_normal hs⟩
+
 /-- **a move of known origin that `MovePreallocated` accepts is a generated move of that position** (C03
 completeness + C11: the generator's moves are in normal form, and the zero move is accepted nowhere) -/
 theorem fromGen_accepted_mem (basis : Array W) (ev : Pos → Int) (sym : Pos → List H) (p : Pos) (hwf : WF basis p)
@@ -295,19 +315,10 @@ theorem fromGen_accepted_mem (basis : Array W) (ev : Pos → Int) (sym : Pos →
     m ∈ p.allMoves := by
   obtain ⟨c, hc⟩ := hacc
   have hc' : p.apply basis m = .ok c := hc
-  rcases hq with hz | ⟨q, hq, hm⟩
-  · exfalso
-    have hz' : m = ⟨0, 0, 0, 0#32⟩ := hz
-    subst hz'
-    have hs := Tak.Proofs.apply_legalShape' basis p _ c hwf.size_ge hwf.size_le (by decide) hc'
-    rcases Tak.PTN.legalShape_kind hs with ⟨h1, _⟩ | ⟨_, h2, _⟩
-    · revert h1; decide
-    · revert h2; decide
-  · have hs := Tak.Proofs.allMoves_legalShape' q hq.1 hq.2 m hm
-    have hn := Tak.Proofs.legalShape_normal hs
-    have := C11.normalize_mem_allMoves basis p c m hwf (Tak.Proofs.legalShape_not_pass hs) hc'
-    rw [hn] at this
-    exact this
+  obtain ⟨hnp, hn⟩ := fromGen_accepted_shape basis ev sym p c hwf.size_ge hwf.size_le m hq hc'
+  have := C11.normalize_mem_allMoves basis p c m hwf hnp hc'
+  rw [hn] at this
+  exact this
 
 /-- **`analyze_pv_head_generated_tak`** — on the Tak instance, for an engine **without a table** in any state whose
 hints are of known origin (a new engine, or any engine after any calls): the head of the PV `Analyze` returns for a
